@@ -68,12 +68,12 @@ def run_check(tier, seed):
         return finish(ev, PROP, findings, broken)
     scale = 1 if tier == 'quick' else 8
     if broken: scale *= 4                  # a proof / translator item broke: search harder for a failing input
-    nv, nf, nfr, nb = 200 * scale, 100 * scale, 30 * scale, 20 * scale
+    nv, nf, nfr, nb = 140 * scale, 70 * scale, 25 * scale, 15 * scale
     evals = 0; shapes = set(); samples = []
     coq_ok = audit['ok']
 
     # ---- virtio readers / writers
-    vcases = T.gen_vcases(rng, nv)
+    vcases = T.gen_vcases(rng, nv) + T.gen_enum_vcases(rng)      # random chains/sequences + the deterministic enumeration block
     vtxt = [T.case_text_v(c) for c in vcases]
     outs, err = T.run_harness(bindir, 'virtio', vtxt, 'c04')
     if err: broken.append({'kind': 'harness-run', 'log': err})
@@ -92,7 +92,7 @@ def run_check(tier, seed):
         if coq_ok: ev.cov['model_vs_impl_virtio'] = coq_compare('c04_v', exprs, vtxt, broken, 'Model/Transport.v vrun vs Reader/VirtioFsWriter', spec_bad)
 
     # ---- fusedev writer + fuse-buffer reader
-    fcases = [T.gen_fcase(rng, protocol_only=(i % 3 != 0)) for i in range(nf)] + [T.gen_fcase_over(rng) for _ in range(6)] + [T.gen_frcase(rng) for _ in range(nfr)]
+    fcases = [T.gen_fcase(rng, protocol_only=(i % 3 != 0)) for i in range(nf)] + [T.gen_fcase_over(rng) for _ in range(6)] + T.gen_enum_fcases(rng) + [T.gen_frcase(rng) for _ in range(nfr)]
     ftxt = [T.case_text_f(c) for c in fcases]
     outs, err = T.run_harness(bindir, 'fusedev', ftxt, 'c04')
     if err: broken.append({'kind': 'harness-run', 'log': err})
@@ -140,6 +140,31 @@ def run_check(tier, seed):
                     broken.append({'kind': 'correspondence', 'name': 'translated table says %s forwards to %s but no run showed a difference' % (a, b)})
             ev.cov['adapter_table'] = table
 
+    # ---- file-side adapters (no Coq model: these are the oracles of the transport model, checked against POSIX / bookkeeping references)
+    ftc = T.gen_ftcases(rng)
+    outs, err = T.run_harness(bindir, 'ft', [T.case_text_ft(c) for c in ftc], 'c04')
+    if err: broken.append({'kind': 'harness-run', 'log': err})
+    else:
+        seen = set()
+        for c, o in zip(ftc, outs):
+            evals += 1
+            for p in T.eval_ftcase(c, o):
+                if p['sig']['method'] not in seen: seen.add(p['sig']['method']); findings.append(p)
+            shapes.add(('ft', c['method'], c['wrap'], tuple(c['slices'])))
+    fbc = T.gen_fvbufcases(rng)
+    outs, err = T.run_harness(bindir, 'fvbuf', ['seed=%d size=%d addr=%d count=%d' % (c['seed'], c['size'], c['addr'], c['count']) for c in fbc], 'c04')
+    if err: broken.append({'kind': 'harness-run', 'log': err})
+    else:
+        for c, o in zip(fbc, outs):
+            evals += 1; ps = T.eval_fvbufcase(c, o)
+            if ps and not any(f.get('sig') == ps[0]['sig'] for f in findings): findings.append(ps[0])
+    outs, err = T.run_harness(bindir, 'misc', ['probe'], 'c04')
+    if err: broken.append({'kind': 'harness-run', 'log': err})
+    else:
+        evals += len(T.MISC_EXPECTED)
+        bad = {k: (outs[0].get(k), v) for k, v in T.MISC_EXPECTED.items() if outs[0].get(k) != v}
+        if bad: findings.append({'what': 'Writer::Noop / Reader::default / Clone / flush probes differ (got, expected): %s' % bad, 'input': 'transport misc', 'sig': {'method': 'misc'}})
+        ev.cov['misc_probes'] = len(T.MISC_EXPECTED)
     coq_flush(broken)
     ev.cov['evaluations'] = evals
     ev.cov['distinct_nontrivial'] = len(shapes)
